@@ -4,7 +4,8 @@
 (* orders of magnitude; Mode "steady" keeps the true rate constant          *)
 (* (steps = rate * gap) while the gaps vary.                                *)
 EXTENDS U64, Json, TLC
-CONSTANTS D, Mode, GapMs, StepSet, RatePerMs
+CONSTANTS D, Mode, GapMs, StepSet, RatePerMs,
+          BigStart     \* TRUE: the position first jumps to 2^63 (then reset_eta): small steps far above 2^53
 VARIABLES hist, n, pos, sinceReset, fin, done
 vars == <<hist, n, pos, sinceReset, fin, done>>
 
@@ -14,9 +15,11 @@ Q == [op |-> "query"]
 Steps(k) == IF k = "1" THEN FromSmall(1) ELSE IF k = "e3" THEN FromSmall(1000) ELSE IF k = "e6" THEN FromSmall(1000000) ELSE MulSmall(FromSmall(1000000), 1000)
 
 Lens == {MulSmall(MulSmall(FromSmall(1000000), 1000), 1000), MaxU64}      \* 10^12, u64::MAX
-Init == /\ \E l \in Lens \cup {Zero} :
+P63 == <<0, 0, 0, 0, 8>>
+Init == /\ \E l \in (IF BigStart THEN {MaxU64} ELSE Lens \cup {Zero}) :
              hist = <<[op |-> "new", nolen |-> l = Zero, len |-> l]>>
-        /\ n = 0 /\ pos = Zero /\ sinceReset = FALSE /\ fin = FALSE /\ done = FALSE
+                    \o (IF BigStart THEN <<Adv(1), [op |-> "upd", steps |-> P63], [op |-> "reset_eta"]>> ELSE <<>>)
+        /\ n = 0 /\ pos = (IF BigStart THEN P63 ELSE Zero) /\ sinceReset = FALSE /\ fin = FALSE /\ done = FALSE
 
 (* one generator step = a few driver operations *)
 Update == \E g \in GapMs :
